@@ -260,7 +260,9 @@ class GroupLibrary(Mapping):
                 property_sets = yaml_io.load(
                     group_properties[name], context,
                     loader=property_sets_loader)
-                lib_contents[group] = property_sets
+                # the loader returns a read-only mapping; Update() adds the
+                # property sets of included files to this entry
+                lib_contents[group] = dict(property_sets)
             for name in other_descriptor_properties:
                 descriptor = Descriptor(scheme, name)
                 if descriptor in lib_contents:
@@ -269,7 +271,7 @@ class GroupLibrary(Mapping):
                 property_sets = yaml_io.load(
                     other_descriptor_properties[name], context,
                     loader=property_sets_loader)
-                lib_contents[descriptor] = property_sets
+                lib_contents[descriptor] = dict(property_sets)
 
             # Read UQ data
             uq_contents = {}
